@@ -2,6 +2,7 @@ package main
 
 import (
 	"fmt"
+	"sort"
 	"go/constant"
 	"go/token"
 	"strings"
@@ -121,6 +122,11 @@ func bindArgs(call *ssa.Call) map[ssa.Value]AV {
 			} else if isNillable(k.Type()) {
 				av.Nil = true
 			}
+		}
+		// only what the helper's own terms cannot express: constants and function values; every other parameter stays
+		// symbolic, so that rules written against the helper's values (its loop, its elements) still match
+		if av.C == nil && !av.Nil && av.T.Op != "closure" && av.T.Op != "fn" {
+			continue
 		}
 		out[p] = av
 	}
@@ -1110,6 +1116,44 @@ func (w *walker) generic(s *wstate, v ssa.Value) *Term {
 		if a, ok := v.X.(*ssa.Alloc); ok && a.Comment == "varargs" {
 			t = w.tb.varargs(a)
 			// re-resolve elements path-sensitively when they were stored on this path
+			if refs := a.Referrers(); refs != nil {
+				type ent struct {
+					i int64
+					t *Term
+				}
+				var es []ent
+				okAll := true
+				for _, r := range *refs {
+					ia, isIA := r.(*ssa.IndexAddr)
+					if !isIA {
+						continue
+					}
+					k, isK := constIntOf(ia.Index)
+					if !isK {
+						okAll = false
+						break
+					}
+					at, has := s.env[ia]
+					if !has || at.T == nil {
+						okAll = false
+						break
+					}
+					hv, stored := s.heap[at.T.String()]
+					if !stored || hv.T == nil {
+						okAll = false
+						break
+					}
+					es = append(es, ent{k, foldedTerm(hv)})
+				}
+				if okAll && len(es) == len(t.Args) && len(es) > 0 {
+					sort.Slice(es, func(i, j int) bool { return es[i].i < es[j].i })
+					nt := &Term{Op: "varargs"}
+					for _, e := range es {
+						nt.Args = append(nt.Args, e.t)
+					}
+					t = nt
+				}
+			}
 			break
 		}
 		t = &Term{Op: "slice", Args: []*Term{tv(v.X), tv(v.Low), tv(v.High), tv(v.Max)}}
